@@ -302,6 +302,10 @@ class SymtableCodeGen(AbstractCodeGen):
                     'syntax': syntax,  # (type, module), subtype
                     'origName': origName}
 
+        if not syntax[0]:
+            # (SYNTAX SEQUENCE { ... } written in place of a type name)
+            raise error.PySmiSemanticError('no type for symbol "%s"' % origName)
+
         parents = [syntax[0][0]]
 
         if augmention:
